@@ -203,9 +203,24 @@ package keeper
 // (commitments, receipts and acknowledgements share the path structure "<family>/<src>/<dst>/sequences/<seq>")
 
 // verif:func (Keeper).iterateHashes
+//@ inline
 //@ loop 1 forkey s string, d string, q uint64 :: host.PacketCommitmentKey(s, d, q) requires noslash(s) && noslash(d)
 //@ loop 1 continue [parse-back] ncalls("cb") == 1 && callarg("cb", 0) == s && callarg("cb", 1) == d && callarg("cb", 2) == q
 
 // verif:func (Keeper).IteratePacketSequence
 //@ loop 1 forkey s string, d string :: host.NextSequenceSendKey(s, d) requires noslash(s) && noslash(d)
 //@ loop 1 continue [parse-back] ncalls("cb") == 1 && callarg("cb", 0) == s && callarg("cb", 1) == d
+
+// ---- by-path reader: iterates the prefix of the pair it was asked for and every key it meets belongs to that pair ----
+// verif:func (Keeper).IteratePacketCommitmentByPath
+//@ requires noslash(srcChain) && noslash(dstChain)
+//@ callsite KVStorePrefixIterator [prefix-of-the-pair] prefix == bytes(host.PacketCommitmentPrefixPath(srcChain, dstChain))
+//@ callsite cb [labels-match] a0 == srcChain && a1 == dstChain
+
+// gRPC by-path readers: the store view they page through is the prefix of the requested pair (the pairing of that
+// prefix with exactly the pair's keys is host.Packet*PrefixPath [selects-exactly-its-pair])
+// verif:func (Keeper).PacketCommitments
+//@ callsite NewStore [prefix-of-the-pair] prefix == bytes(host.PacketCommitmentPrefixPath(req.SrcChain, req.DstChain))
+
+// verif:func (Keeper).PacketAcknowledgements
+//@ callsite NewStore [prefix-of-the-pair] prefix == bytes(host.PacketAcknowledgementPrefixPath(req.SrcChain, req.DstChain))
